@@ -178,6 +178,13 @@ void Mul::dict_add_term_new(const Ptr<RCP<const Number>> &coef,
                             map_basic_basic &d, const RCP<const Basic> &exp,
                             const RCP<const Basic> &t)
 {
+    if (is_a<Pow>(*t) and is_a<Integer>(*exp)) {
+        // (b**e)**n == b**(e*n) for an integer n: a Pow key must not get an
+        // Integer exponent (Mul::is_canonical)
+        const Pow &p = down_cast<const Pow &>(*t);
+        Mul::dict_add_term_new(coef, d, mul(p.get_exp(), exp), p.get_base());
+        return;
+    }
     auto it = d.find(t);
     if (it == d.end()) {
         // Don't check for `exp = 0` here
